@@ -5,11 +5,13 @@
 package simnode
 
 import (
-	"runtime"
 	"crypto/ecdsa"
 	"fmt"
 	"os"
 	"path/filepath"
+	"runtime"
+	"sort"
+	"strings"
 	"time"
 
 	"github.com/idena-network/idena-go/blockchain"
@@ -19,6 +21,7 @@ import (
 	"github.com/idena-network/idena-go/common/eventbus"
 	"github.com/idena-network/idena-go/config"
 	"github.com/idena-network/idena-go/core/appstate"
+	"github.com/idena-network/idena-go/core/ceremony"
 	"github.com/idena-network/idena-go/core/flip"
 	"github.com/idena-network/idena-go/core/mempool"
 	"github.com/idena-network/idena-go/core/state"
@@ -26,6 +29,7 @@ import (
 	"github.com/idena-network/idena-go/crypto"
 	"github.com/idena-network/idena-go/keystore"
 	"github.com/idena-network/idena-go/pengings"
+	"github.com/idena-network/idena-go/rpc"
 	"github.com/idena-network/idena-go/secstore"
 	"github.com/idena-network/idena-go/stats/collector"
 	"github.com/idena-network/idena-go/subscriptions"
@@ -34,6 +38,46 @@ import (
 	"verif/sim/simdisk"
 	"verif/sim/simipfs"
 )
+
+// EpochEval records one evaluation of ApplyNewEpoch by this replica (the ceremony clears its cache when the block
+// that finishes the validation is inserted, so the result is captured when it is computed).
+type EpochEval struct {
+	Height     uint64
+	Failed     bool
+	Identities int
+	FromCache  bool
+	Text       string
+}
+
+// epochText renders an evaluation. The 'participated' flag is read by applyOnState only before upgrade 12 (and only
+// for identities that end up Killed); with upgrade 12 it is dead data and left out of the comparison.
+func epochText(vc *ceremony.ValidationCeremony, h uint64, withParticipated bool) string {
+	res, failed := vc.VerifEpochResult(h)
+	var addrs []common.Address
+	for a := range res {
+		addrs = append(addrs, a)
+	}
+	sort.Slice(addrs, func(i, j int) bool { return string(addrs[i][:]) < string(addrs[j][:]) })
+	var sb strings.Builder
+	fmt.Fprintf(&sb, "failed=%v\n", failed)
+	for _, a := range addrs {
+		v := res[a]
+		d := "-"
+		if v.Delegatee != nil {
+			d = fmt.Sprintf("%x", v.Delegatee[:4])
+		}
+		part := "n/a"
+		if withParticipated && v.State == state.Killed {
+			part = fmt.Sprint(v.Participated)
+		}
+		fmt.Fprintf(&sb, "%x state=%d prev=%d shortflips=%d shortpoints=%v birthday=%d missed=%v participated=%s delegatee=%s\n", a[:4], v.State, v.PrevState, v.ShortQualifiedFlipsCount, v.ShortFlipPoint, v.Birthday, v.Missed, part, d)
+	}
+	return sb.String()
+}
+
+type notSyncing struct{}
+
+func (notSyncing) IsSyncing() bool { return false }
 
 type EpochFn func(n *Node, height uint64, appState *appstate.AppState, c collector.StatsCollector) types.TotalValidationResult
 
@@ -58,7 +102,7 @@ type Node struct {
 	Dir   string
 	Epoch EpochFn
 	// Extra lets checks attach further components (ceremony, engine, ...)
-	Extra map[string]interface{}
+	Extra  map[string]interface{}
 	Starts int
 	// LastApplied is the state the most recent non-empty block application (proposal
 	// building or validation) ran on, captured through Blockchain.UseMiddleware.
@@ -69,7 +113,11 @@ type Node struct {
 	KeyStore  *keystore.KeyStore
 	Keys      *mempool.KeysPool
 	Flipper   *flip.Flipper
-	SubMgr    *subscriptions.Manager
+	// WithCeremony: run the real ValidationCeremony (instead of a scripted epoch function)
+	WithCeremony bool
+	VC           *ceremony.ValidationCeremony
+	EpochEvals   []EpochEval
+	SubMgr       *subscriptions.Manager
 }
 
 // CloneConfig deep-copies what the node mutates (Upgrader changes cfg.Consensus in place).
@@ -178,7 +226,23 @@ func (n *Node) start() error {
 	n.Flipper = flip.NewFlipper(n.Disk, n.Ipfs, n.Keys, n.Pool, n.Sec, app, n.Bus)
 	n.Flipper.Initialize()
 	n.Keys.Initialize(n.Chain.Head)
-	if n.Epoch != nil {
+	if n.WithCeremony {
+		if cfg.RPC == nil {
+			cfg.RPC = &rpc.Config{}
+		}
+		n.VC = ceremony.NewValidationCeremony(app, n.Bus, n.Flipper, n.Sec, n.Disk, n.Pool, n.Chain, notSyncing{}, n.Keys, cfg)
+		n.VC.Initialize(n.Chain.GetBlock(n.Chain.Head.Hash()))
+		vc := n.VC
+		n.Chain.ProvideApplyNewEpochFunc(func(h uint64, a *appstate.AppState, c collector.StatsCollector) types.TotalValidationResult {
+			_, cached := vc.VerifEpochResult(h)
+			_ = cached
+			pre, _ := vc.VerifEpochResult(h)
+			res := vc.ApplyNewEpoch(h, a, c)
+			n.EpochEvals = append(n.EpochEvals, EpochEval{Height: h, Failed: res.Failed, Identities: res.IdentitiesCount, FromCache: pre != nil, Text: epochText(vc, h, !cfg.Consensus.EnableUpgrade12)})
+			return res
+		})
+	}
+	if n.Epoch != nil && !n.WithCeremony {
 		n.Chain.ProvideApplyNewEpochFunc(func(h uint64, a *appstate.AppState, c collector.StatsCollector) types.TotalValidationResult {
 			return n.Epoch(n, h, a, c)
 		})
@@ -187,6 +251,16 @@ func (n *Node) start() error {
 }
 
 func (n *Node) Stop() {
+	// background tasks of the stopped instance die with it (they are unwound when next scheduled); the next start
+	// gets a fresh context with the same node-local environment
+	if n.Ctx != nil && n.Starts > 0 {
+		old := n.Ctx
+		nc := *old
+		old.Dead = true
+		nc.Dead = false
+		n.Ctx = &nc
+		n.Ctx.Install = func() { validation.SetAppConfig(n.Cfg) }
+	}
 	if n.Sec != nil {
 		n.Sec.Destroy()
 		n.Sec = nil
